@@ -667,10 +667,10 @@ def run_corrupt(spec):
             ck.dg.add(name)
             try:
                 r = fn()
-            except ValueError:
-                return
             except Exception as e:
-                ck.v("corrupt:%s:raises-%s-not-ValueError" % (name, type(e).__name__), str(e)[:200], rp)
+                # the property asks for "an error rather than mis-loaded": any exception type is
+                # a rejection (today's code raises ValueError; a refactor may choose another)
+                ck.stats["rejected_with_" + type(e).__name__] += 1
                 return
             ck.v("corrupt:%s:accepted" % name, "returned %s" % type(r).__name__, rp)
 
@@ -721,9 +721,24 @@ def run_corrupt(spec):
         # a valid model object passed straight through is returned as is
         if load_cider_model(model, None) is not model:
             ck.v("corrupt:load_cider_model:object-passthrough", "valid in-memory model not returned unchanged", rp)
-        return finish(ck, spec, nontrivial=True)
+        out = finish(ck, spec, nontrivial=True)
     finally:
         fs.uninstall()
+    if not spec.get("in_child"):
+        # the same rejections in an interpreter started with -O (assert statements vanish, so a
+        # rejection implemented with assert would silently accept there)
+        env = dict(os.environ)
+        env["PYTHONPATH"] = os.path.dirname(os.path.dirname(os.path.dirname(os.path.abspath(__file__))))
+        env["PYTHONHASHSEED"] = str(1 + spec["seed"] % 4000)
+        p = subprocess.run([sys.executable, "-O", "-m", "cidersim.engines.fsim_child", "--corrupt", str(spec["seed"])], capture_output=True, env=env, timeout=900)
+        lines = p.stdout.decode().strip().splitlines()
+        if p.returncode != 0 or not lines:
+            out["violations"].append({"key": "corrupt:python-O:child-died", "detail": "rc=%s %s" % (p.returncode, p.stderr.decode()[-300:]), "replay": rp})
+        else:
+            for k_ in json.loads(lines[-1])["keys"]:
+                out["violations"].append({"key": k_ + ":python-O", "detail": "in an interpreter started with -O", "replay": rp})
+            out["stats"]["corruption_sets_under_python_O"] = 1
+    return out
 
 
 # ---------------------------------------------------------------------------------
@@ -742,6 +757,7 @@ HIST_OBJS = [
     {"obj": "model", "settings": "sdmxg1", "ev": "rbf", "mode": "POL", "version": 1},
     {"obj": "model", "settings": "nldf_k", "ev": "spline+rbf", "mode": "SEP", "version": 2},
     {"obj": "model", "settings": "nldf_i_l1", "ev": "linear", "mode": "SEP", "version": 1},
+    {"obj": "model", "settings": "sl_npa", "ev": "antisym", "mode": "SEP", "version": 1},
     {"obj": "model", "settings": "sdmxfull", "ev": "rbf", "mode": "SEP", "version": 1},
 ]
 
@@ -968,7 +984,7 @@ def restart_check(files, seed, rp):
     env["PYTHONHASHSEED"] = str(1 + (seed % 4000))
     env["PYTHONPATH"] = os.path.dirname(os.path.dirname(os.path.dirname(os.path.abspath(__file__))))
     p = subprocess.run(
-        [sys.executable, "-m", "cidersim.engines.fsim_child"],
+        [sys.executable] + (["-O"] if seed % 2 else []) + ["-m", "cidersim.engines.fsim_child"],
         input=json.dumps(job).encode(),
         capture_output=True,
         env=env,
@@ -1180,6 +1196,8 @@ MODEL_GRID = [
     ("nldf_j_sdmx", "kernel", "SEP", 1),
     ("sdmxfull", "rbf", "SEP", 1),
     ("sdmxfull", "linear", "NPOL", 1),
+    ("sl_npa", "antisym", "SEP", 1),
+    ("nldf_j", "antisym+linear", "NPOL", 1),
 ]
 
 
